@@ -178,7 +178,7 @@ Definition ck_flag (bottom versioning : bool) (retention now : N) (snaps : list 
     else if is_latest && hard && bottom then false
     else if is_latest && hard && negb bottom then false
     else if is_latest && rep then false
-    else if hard then true
+    else if hard then negb (versioning && negb bottom)
     else if barrier then true
     else if negb versioning then true
     else if 0 <? retention then (retention <? (now - vts v)) else false in
